@@ -2,21 +2,37 @@
 
 tie: T (every naming function translated from the AST of mulgrids.py on every run);
 the generated functions are also run (extracted) against the real ones."""
-import os, itertools, string
+import os, itertools, string, ast, warnings
 import vf
 from translate import pyfun
+from props import c17_translate as c17t
 
-FUNCS = ['padstring', 'int_to_chars', 'uniqstring', 'fix_blockname', 'unfix_blockname', 'valid_blockname']
+FUNCS = ['padstring', 'int_to_chars', 'uniqstring', 'fix_blockname', 'unfix_blockname', 'valid_blockname', 'new_dict_key']
 METHODS = ['column_name', 'layer_name', 'node_col_name_from_number', 'column_name_from_number',
            'node_name_from_number', 'layer_name_from_number', 'block_name']
 
 
 def translate(ctx):
+    """Every naming function from the AST of the current mulgrids.py; new_dict_key (while loop) and the
+    name-deciding slice of mulgrid.add_layers (for + while) through the loop extension in c17_translate;
+    the per-convention tables of set_secondary_variables as literal lists.  Fail closed."""
     try:
-        t = pyfun.Translator(os.path.join(ctx.repo, 'mulgrids.py'))
+        with warnings.catch_warnings():
+            warnings.simplefilter('ignore', SyntaxWarning)
+            t = c17t.LoopTranslator(os.path.join(ctx.repo, 'mulgrids.py'))
         for f in FUNCS: t.translate(f)
         for f in METHODS: t.translate(f, cls='mulgrid')
-        ctx.gen('GenNames', pyfun.HEADER + t.text())
+        fn, dropped, params = c17t.slice_add_layers(t)
+        t.synthetic[('mulgrid', 'add_layers')] = fn
+        t.translate('add_layers', cls='mulgrid')
+        tbl_text, tbl = c17t.tables(t)
+        note = '(* name-deciding slice of mulgrid.add_layers (dropped elevation variables: %s):\n%s\n*)\n' % (
+            ', '.join(dropped), ast.unparse(fn).replace('*)', '* )'))
+        ctx.gen('GenNames', pyfun.HEADER + t.text() + '\n' + note + tbl_text)
+        ctx.extra['add_layers_slice'] = {'dropped_variables': dropped, 'parameters': params}
+        if params != ['thicknesses', 'justify', 'chars', 'spaces']:
+            ctx.refusal('add_layers slice', 'unexpected parameter list %r (the driver passes thicknesses, justify, chars, spaces)' % (params,))
+            return False
         return True
     except pyfun.Refusal as e:
         ctx.refusal('pyfun(naming functions)', e)
@@ -30,6 +46,8 @@ def enc(v):
     if isinstance(v, str): return 'S:' + vf.hexs(v)
     if v is str.rjust: return 'F:r'
     if v is str.ljust: return 'F:l'
+    if isinstance(v, dict): return 'D:' + ','.join(vf.hexs(k) for k in v)
+    if isinstance(v, list): return 'L:%d' % len(v)
     raise ValueError(v)
 
 
@@ -41,6 +59,13 @@ def impl(f, *a):
     if r is True or r is False: return 'B %d' % r
     if isinstance(r, str): return 'S ' + vf.hexs(r)
     if isinstance(r, int): return 'I %d' % r
+    if isinstance(r, (tuple, list)):
+        items = []
+        for x in r:
+            if isinstance(x, str): items.append('S ' + vf.hexs(x))
+            elif isinstance(x, int) and not isinstance(x, bool): items.append('I %d' % x)
+            else: return '? ' + repr(r)
+        return ('T[' if isinstance(r, tuple) else 'L[') + ''.join(i + ',' for i in items) + ']'
     return '? ' + repr(r)
 
 
@@ -88,6 +113,38 @@ def cases(ctx):
             add('blkname', [conv, lay, col], geo.block_name, [lay, col])
         for n in names[:2000:7] + names[7776:7900]:
             add('colname', [conv, n], geo.column_name, [n]); add('layname', [conv, n], geo.layer_name, [n])
+        # the per-convention tables
+        def tbl(g=geo):
+            g.atmosphere_type = 0        # the atmosphere column name only exists for atmosphere type 0
+            return (g.colname_length, g.layername_length, g.atmosphere_column_name)
+        add('tbl', [conv], tbl, [])
+    # new_dict_key: dictionaries holding the first m generated names minus a few holes
+    for chars in ('abc', string.ascii_lowercase, 'xyzXYZ', 'ab'):     # duplicate-free (the |d| + 2 fuel bound of the theorem needs it)
+        for sp in (True, False):
+            for jf in (str.rjust, str.ljust):
+                for length in (2, 3, 5):
+                    for _ in range(6 if not ctx.thorough else 30):
+                        m = rng.choice([0, 1, 2, 5, 12, 13, 40, 120])
+                        keys = [jf(mg.int_to_chars(i, chars=chars, spaces=sp, length=length), length) for i in range(1, m + 1)]
+                        for _h in range(rng.choice([0, 0, 1, 3])):
+                            if keys: keys.pop(rng.randrange(len(keys)))
+                        if rng.random() < 0.3: keys.append('zz zz')
+                        d = dict.fromkeys(keys)
+                        istart = rng.choice([0, 0, 0, 1, 3, m // 2, m])
+                        add('ndk', [d, istart, jf, length, chars, sp], mg.new_dict_key)
+    # add_layers: the translated name slice against the layer list the real method builds
+    def layer_names(conv, n, justify, chars, sp):
+        g = mg.mulgrid(convention=conv)
+        g.add_layers([1.0] * n, 0.0, justify, chars, sp)
+        return [l.name for l in g.layerlist]
+    counts = [0, 1, 2, 9, 10, 26, 27, 45, 46, 47, 98, 99, 100, 101, 130]
+    for conv in range(4):
+        for justify in ('r', 'l', 'x'):
+            for chars in (string.ascii_lowercase, string.ascii_uppercase, 'abc', 'aab', 'atm', 'a0'):
+                for sp in (True, False):
+                    for n in counts + [rng.randint(0, 140)] + ([702, 703, 1208, 1209, 1210] if (conv == 1 and justify == 'r' and len(chars) == 26) else []) + \
+                            ([675, 676, 677, 704] if (conv == 2 and justify == 'l' and len(chars) == 26) else []):
+                        add('addlay', [conv, geos[conv].layername_length, [0] * n, justify, chars, sp], layer_names, [conv, n, justify, chars, sp])
     return out
 
 
@@ -190,6 +247,60 @@ def oracle(ctx):
                             if len(set(nms)) != len(nms) or any(len(x) != length for x in nms):
                                 ctx.failure('constructed-geometries', '%s-names:duplicate-or-wrong-length' % what, inp, repr(nms[:6]), 'distinct names of length %d' % length)
     ctx.oracle_cases('constructed-geometries', ng)
+    # (4) add_layers on its own, across the layer numbers whose name would equal the surface layer's
+    #     ('at' = layer 46 of convention 2, 'atm' = layer 1209 of convention 1 with lower-case letters)
+    nl = 0
+    for conv in range(4):
+        for justify in ('r', 'l'):
+            for chars, sp in ((string.ascii_lowercase, True), (string.ascii_uppercase, True), ('atm', True), (string.ascii_lowercase, False)):
+                for n in ([1, 45, 46, 47, 60, 99] + ([1215] if conv == 1 and sp and len(chars) == 26 else [])):
+                    inp = {'add_layers': n, 'convention': conv, 'justify': justify, 'chars': chars, 'spaces': sp}
+                    nl += 1
+                    ctx.count(('addlay', str(inp)))
+                    ok, what = check_add_layers(mg, inp)
+                    if not ok: ctx.failure('add-layers', 'add_layers:' + what, inp, what, 'surface layer + %d distinct layer names of the convention\'s length, or NamingConventionError' % n)
+    ctx.oracle_cases('add-layers', nl)
+    # (5) new_column_name / new_node_name on a constructed geometry: an unused name of the convention's length
+    nk = 0
+    for conv in range(4):
+        for chars, sp in ((string.ascii_lowercase, True), ('klmn', True), (string.ascii_lowercase, False)):
+            for justify in ('r', 'l'):
+                inp = {'new_name': True, 'convention': conv, 'justify': justify, 'chars': chars, 'spaces': sp}
+                nk += 1
+                ctx.count(('newname', str(inp)))
+                ok, what = check_new_names(mg, inp)
+                if not ok: ctx.failure('new-names', 'new_dict_key:' + what, inp, what, 'an unused name of the convention\'s length, or NamingConventionError')
+    ctx.oracle_cases('new-names', nk)
+
+
+def check_add_layers(mg, inp):
+    geo = mg.mulgrid(convention=inp['convention'])
+    n = inp['add_layers']
+    try: geo.add_layers([1.0] * n, 0.0, inp['justify'], inp['chars'], inp['spaces'])
+    except mg.NamingConventionError: return True, ''
+    except Exception as e: return False, 'unexpected-exception'
+    names = [l.name for l in geo.layerlist]
+    if len(names) != n + 1 or len(geo.layer) != n + 1: return False, 'layers-missing'
+    if len(set(names)) != len(names): return False, 'duplicate-layer-name'
+    if any(len(x) != geo.layername_length for x in names): return False, 'wrong-length'
+    return True, ''
+
+
+def check_new_names(mg, inp):
+    try:
+        geo = mg.mulgrid().rectangular([10.] * 4, [10.] * 3, [5.] * 2, convention=inp['convention'], justify=inp['justify'],
+                                       chars=inp['chars'], spaces=inp['spaces'])
+    except mg.NamingConventionError: return True, ''
+    jf = str.ljust if inp['justify'] == 'l' else str.rjust
+    for fn, d in ((geo.new_column_name, geo.column), (geo.new_node_name, geo.node)):
+        for istart in (0, 5, len(d)):
+            try: name, i = fn(istart, jf, mg.uniqstring(inp['chars']), inp['spaces'])
+            except mg.NamingConventionError: continue
+            except Exception: return False, 'unexpected-exception'
+            if name in d: return False, 'key-in-use'
+            if len(name) != geo.colname_length: return False, 'wrong-length'
+            if i <= istart: return False, 'index-not-advanced'
+    return True, ''
 
 
 def run(ctx):
@@ -204,7 +315,7 @@ def run(ctx):
     ok = translate(ctx)
     exe = None
     if ok:
-        ctx.coq_build()
+        ctx.coq_build(props=('Props.v', 'Props2.v'))
         exe = vf.build_driver(ctx)
     if exe: correspond(ctx, exe)
     oracle(ctx)
@@ -238,6 +349,8 @@ def replay(ctx, data):
             return False
         except mg.NamingConventionError: return False
         except Exception: return True
+    if 'add_layers' in inp: return not check_add_layers(mg, inp)[0]
+    if 'new_name' in inp: return not check_new_names(mg, inp)[0]
     if 'n' in inp and 'convention' in inp:
         nx, ny, nz = inp['n']; atm = inp['atmos_type']
         try:
